@@ -15,19 +15,32 @@ inductive Sched where
   | mul (a b : Sched)
   | floordiv (a b : Sched)      -- `a // b` = `Floor(Division(a, b))`
   | mod (a b : Sched)           -- Python `%`: the sign follows the divisor
+  | stepwise (lens : List Nat) (vals : List Sched)   -- `StepWise([(len, value), ...])`, integer lengths
 
-/-- value at a step; `none` = ZeroDivisionError. -/
-def Sched.eval : Sched → Nat → Option Int
-  | .const c, _ => some c
-  | .step, s => some s
-  | .add a b, s => do pure ((← a.eval s) + (← b.eval s))
-  | .sub a b, s => do pure ((← a.eval s) - (← b.eval s))
-  | .mul a b, s => do pure ((← a.eval s) * (← b.eval s))
-  | .floordiv a b, s => do
-      let y ← b.eval s
-      if y = 0 then none else pure (Int.fdiv (← a.eval s) y)
-  | .mod a b, s => do
-      let y ← b.eval s
-      if y = 0 then none else pure (Int.fmod (← a.eval s) y)
+mutual
+  /-- value at a step; `none` = ZeroDivisionError. -/
+  def Sched.eval : Sched → Nat → Option Int
+    | .const c, _ => some c
+    | .step, s => some s
+    | .add a b, s => do pure ((← a.eval s) + (← b.eval s))
+    | .sub a b, s => do pure ((← a.eval s) - (← b.eval s))
+    | .mul a b, s => do pure ((← a.eval s) * (← b.eval s))
+    | .floordiv a b, s => do
+        let y ← b.eval s
+        if y = 0 then none else pure (Int.fdiv (← a.eval s) y)
+    | .mod a b, s => do
+        let y ← b.eval s
+        if y = 0 then none else pure (Int.fmod (← a.eval s) y)
+    | .stepwise lens vals, s =>
+        -- mirrors /repo with fixes/C14-F235.patch: the phase is a function of the step alone; after the
+        -- last phase its last value is held
+        evalPhases lens vals (min s (lens.sum - 1))
+  /-- the phase that contains step `s` (the last phase takes whatever is left), evaluated at the
+  phase-local step. -/
+  def evalPhases : List Nat → List Sched → Nat → Option Int
+    | _, [v], s => v.eval s
+    | l :: ls, v :: vs, s => if s < l then v.eval s else evalPhases ls vs (s - l)
+    | _, _, _ => none
+end
 
 end Pg.C14
